@@ -311,6 +311,12 @@ def stepMain (ds : DState) (toks : List String) : DState × String :=
     else if file.endsWith ".merge-finished" then
       ({ ds with st := { s with world := s.world.set d { dir with marker := some bytes } } }, "ok")
     else (ds, "?")
+  | ["sumdir", d] =>
+    match s.world.get d with
+    | none => (ds, "sumdir absent")
+    | some dir => (ds, "sumdir " ++ ",".intercalate (dir.data.map (fun (i, f) => s!"{pad9 i}.data:{fmtVal f.bytes}")))
+  | ["haslock", _] => (ds, "?")
+  | ["ix.npot", n] => (ds, toString (XixiKV.Index.nextPowerOfTwo n.toNat!))
   | ["mkdir", d] =>
     if (s.world.get d).isSome then (ds, "ok") else ({ ds with st := { s with world := s.world.set d DirSt.empty } }, "ok")
   | ["rmdir", d] => ({ ds with st := { s with world := s.world.remove d } }, "ok")
@@ -376,6 +382,7 @@ def step (ds : DState) (line : String) : DState × String :=
     (ds, s!"{g.1} {g.2.1} {g.2.2.1} {g.2.2.2 / BS} {g.2.2.2 % BS}")
   | op :: a =>
     if op.startsWith "df." then dfStep ds op a
+    else if op = "ix.npot" then stepMain ds (op :: a)
     else if op.startsWith "ix." ∨ op.startsWith "ixit." then
       match XixiKV.ShardIter.Drv.step ds.ix (op :: a) with
       | some (ix', out) => ({ ds with ix := ix' }, out)
